@@ -152,6 +152,11 @@ func allStructs(s *structT, out *[]*structT) {
 			allStructs(f.sub, out)
 		}
 	}
+	for _, o := range *out {
+		if o == s {
+			return // the same struct type embedded through two branches is declared once
+		}
+	}
 	*out = append(*out, s)
 }
 
@@ -654,6 +659,16 @@ func specialShapes() []*shape {
 		k64, k32 := classes[5][0], classes[4][0]
 		in := &structT{name: "Q1_In", fields: []field{{name: "Pad", typ: "Q1_P", leaf: &k64}, {name: "X", typ: "Q1_W", leaf: &k64}}}
 		sh.root = &structT{name: "Q1", fields: []field{{name: "Q1_In", typ: "Q1_In", embedded: true, ptr: true, sub: in}, {name: "X", typ: "Q1_T", leaf: &k32}, {name: "Y", typ: "Q1_V", leaf: &k32}}}
+		out = append(out, sh)
+	}
+	{ // one struct type embedded twice, through two different branches: both copies are listed with their fields
+		sh := &shape{name: "B1", family: "dup"}
+		sh.decls = append(sh.decls, "type B1_T int32", "type B1_T_same int32", "type B1_U string", "type B1_U_same string", "type B1_V int8", "type B1_V_same int8", "type B1_W int64", "type B1_W_same int64")
+		kT, kU, kV, kW := classes[4][0], classes[6][0], classes[1][1], classes[5][0]
+		base := &structT{name: "B1_Base", fields: []field{{name: "X", typ: "B1_T", leaf: &kT}, {name: "Y", typ: "B1_U", leaf: &kU}}}
+		left := &structT{name: "B1_Left", fields: []field{{name: "B1_Base", typ: "B1_Base", embedded: true, sub: base}, {name: "L", typ: "B1_V", leaf: &kV}}}
+		right := &structT{name: "B1_Right", fields: []field{{name: "P", typ: "B1_W", leaf: &kW}, {name: "B1_Base", typ: "B1_Base", embedded: true, sub: base}}}
+		sh.root = &structT{name: "B1", fields: []field{{name: "B1_Left", typ: "B1_Left", embedded: true, sub: left}, {name: "B1_Right", typ: "B1_Right", embedded: true, sub: right}}}
 		out = append(out, sh)
 	}
 	for v := 0; v < 4; v++ { // same field name at two depths, different types; same type at two depths, different names
